@@ -631,9 +631,9 @@ def rule_zipname(ctx):
         if t.startswith("not is_compression_format") or (" not in " in t and "len(" in t and "== 1" in t):
             return False
         import re as _re2
-        if _re2.fullmatch(r"\w+ in \w+", t):
+        if _re2.fullmatch(r"[\w.]+(\([\w., ]*\))? in \w+", t):
             return True         # the expected member is present (the path the round trip takes)
-        if _re2.fullmatch(r"\w+ not in \w+", t):
+        if _re2.fullmatch(r"[\w.]+(\([\w., ]*\))? not in \w+", t):
             return False
         if t.endswith(" == 'zip'") and " " not in t[:-len(" == 'zip'")]:
             return True         # the member is opened on the zip path
